@@ -1,6 +1,6 @@
 import SstModel.Generated.Funcs
 import SstModel.Model.Filter
-import SstModel.Props.FuncsTie.Small
+import SstModel.Props.FuncsTie.FilterIndex
 /-
   Function-level tie for filter_block.rs: the regenerated translations of
   `FilterBlockReader::{is_well_formed, num, offset_of, key_may_match}` equal the model functions for every
